@@ -46,7 +46,7 @@ SCAN_FUNCS = {"finditer", "search", "match", "findall", "fullmatch", "split", "s
 
 def check(ctx):
     pkg = package(ctx.tree)
-    cname, cfn = species_count_method(pkg)
+    cname, cfn = _count_method(pkg)
     pname, pfn = _tokenizer(pkg, cname)
     ctx.saw(SP, f"Species.{pname}")
     ctx.saw(SP, f"Species.{cname}")
@@ -77,6 +77,59 @@ def check(ctx):
     from .c17 import _r3 as installation_rule
     ctx.absorb(lambda sub: installation_rule(sub, package(sub.tree)), "R10",
                only=lambda o: o.key.startswith("Network.") and "installation" in o.key and o.outcome != "MISSING")
+
+
+def _records_counts(fn) -> bool:
+    for n in ast.walk(fn):
+        tg = n.targets if isinstance(n, ast.Assign) else [n.target] if isinstance(n, ast.AugAssign) else []
+        if any(isinstance(t, ast.Subscript) and ast.unparse(t.value) == "self.element_count" for t in tg):
+            return True
+        if isinstance(n, ast.Call) and isinstance(n.func, ast.Attribute) and n.func.attr in ("update", "setdefault") and ast.unparse(n.func.value) == "self.element_count":
+            return True
+    return False
+
+
+def _count_method(pkg):
+    """(name, FunctionDef) of the Species method that records element counts.  The statement that writes self.element_count[..]
+    may have been moved into a private step of that method (a helper method, or a function of the module handed `self`): a step is
+    used by one function only and called there once, outside any loop -- the count method itself is what the tokenizer calls once
+    per match, inside its loop.  From the function that holds the write, climb through such steps; the method is returned with its
+    steps put back."""
+    from ..core import AnalysisError
+    from .c17 import _users_of, _top_functions, _calls_of
+    ci = pkg.cls("Species")
+    try:
+        name, fn = species_count_method(pkg)
+        q = f"Species.{name}"
+    except AnalysisError:
+        cands = [n for (f_, n), fn_ in pkg.functions.items() if f_ == SP and n.startswith("_") and any(a.arg == "self" for a in fn_.args.args) and _records_counts(fn_)]
+        if len(cands) != 1:
+            raise
+        q = cands[0]
+    fns, _ = _top_functions(pkg, SP)
+    start = q
+    for _ in range(4):
+        users = _users_of(pkg, SP, q)
+        if not users or len(users) != 1:
+            break
+        u = next(iter(users))
+        ufn = fns.get(u)
+        if ufn is None or not u.startswith("Species."):
+            break
+        calls = _calls_of(ufn, q.split(".")[-1])
+        in_loop = any(c is x for lp in ast.walk(ufn) if isinstance(lp, (ast.For, ast.While, ast.ListComp, ast.GeneratorExp, ast.DictComp, ast.SetComp)) for x in ast.walk(lp) for c in calls)
+        if len(calls) != 1 or in_loop:
+            break
+        q = u
+    if not q.startswith("Species."):
+        raise AnalysisError("no method of Species records element counts (self.element_count[..] = ..)", (SP, 0), "MISSING")
+    if q == start:
+        return species_count_method(pkg)
+    name = q.split(".", 1)[1]
+    try:
+        return name, pkg.expanded("Species", name)
+    except Exception:
+        return name, ci.methods[name]
 
 
 def _tokenizer(pkg, cname):
